@@ -1070,6 +1070,27 @@ fn c17_check(c: &WrapCase) -> Result<(bool, Vec<&'static str>), String> {
     if r != Err(Error::Initialization) {
         return Err(format!("[C17] recovering untouched memory returned {r:?}, expected Err(Initialization)"));
     }
+    // in half of the cases the region was formatted before, by an instance of another size whose
+    // header sat in the same page (larger region with the same end, or smaller one): creating the
+    // instance under test must replace it completely
+    if c.bad_recover % 2 == 1 {
+        let (olen, oskip) = if iskip > 0 {
+            (zlen, 0)
+        } else if ilen > TREE_FRAMES + 64 {
+            (ilen - TREE_FRAMES, TREE_FRAMES)
+        } else {
+            (0, 0)
+        };
+        if olen > 0 {
+            let no = LLFree::metadata_size(&classing, olen);
+            let (lo, to) = (llfree::util::aligned_buf(no.local.max(64)), llfree::util::aligned_buf(no.trees.max(64)));
+            let old = g("NvmAlloc::create (older instance)", || NvmAlloc::<LLFree>::create(mk_zone(olen, oskip), false, &classing, lo, to))?
+                .map_err(|e| format!("[C17] NvmAlloc::create(older instance, zone of {olen} frames) failed: {e:?}"))?;
+            let _ = g("nvm get", || old.get(None, Request::new(0, Class(0), Some(0))))?;
+            drop(old);
+            kinds.push("reformatted_over_older_instance");
+        }
+    }
     let (l1, t1) = vol();
     let nvm = g("NvmAlloc::create", || NvmAlloc::<LLFree>::create(mk_zone(ilen, iskip), false, &classing, l1, t1))?
         .map_err(|e| format!("[C17] NvmAlloc::create(zone of {ilen} frames) failed: {e:?}"))?;
@@ -1168,7 +1189,7 @@ pub fn run_c17(ctx: &Ctx) -> Finish {
         &ctx.tier,
         ctx.seed,
         "exploration",
-        "generated (offset 0..4 trees, inner size, op list, persistent zone size 1-3 trees + remainder, bad-recover variant). Zone wrapper: every get/put/drain runs on ZoneAlloc<LLFree> and on an inner LLFree twin; results must equal twin + offset, statistics and sampled stats_at (base, huge and tree order) must agree, frames below the offset give Err(Argument) for get/put and report nothing free in stats_at. Persistent wrapper on a tree-aligned anonymous mapping: recovering untouched memory fails with Initialization; after create + generated gets/puts every returned block lies inside the managed range and outside [lower metadata pages, header page]; recovering a shifted or shorter region fails with Initialization; recovering the instance yields the identical per-frame state and every block held across the restart can be freed. Non-trivial = at least one block held across the recover; distinct by case hash.",
+        "generated (offset 0..4 trees, inner size, op list, persistent zone size 1-3 trees + remainder, bad-recover variant). Zone wrapper: every get/put/drain runs on ZoneAlloc<LLFree> and on an inner LLFree twin; results must equal twin + offset, statistics and sampled stats_at (base, huge and tree order) must agree, frames below the offset give Err(Argument) for get/put and report nothing free in stats_at. Persistent wrapper on a tree-aligned anonymous mapping: recovering untouched memory fails with Initialization; in half of the cases an older instance of another size is formatted over the same header page first; after create + generated gets/puts every returned block lies inside the managed range and outside [lower metadata pages, header page]; recovering a shifted or shorter region fails with Initialization; recovering the instance yields the identical per-frame state and every block held across the restart can be freed. Non-trivial = at least one block held across the recover; distinct by case hash.",
     );
     let op = || {
         prop_oneof![
